@@ -50,10 +50,10 @@ TEXT = {
    level='proof that close empties the sender slot and hands over exactly one Exit (under the lock: Kani), that a closed store rejects dispatch through every entry point without handing anything over, that second close/stop do nothing, that the loop processes nothing after Exit and then releases every subscriber once, and that nothing is spawned once the pool slot is empty',
    note='that shutdown_join* really waits for the running loop and queued jobs is the assumed contract of rusty_pool (A4); timing is not decided'),
  'C05': dict(engine='verus+kani', ref='4-C05', technique='Verus: BlockOnFull arm of SenderChannel::send against the bounded-FIFO ghost channel; capacity >= 1 precondition chain build -> new_with -> pair_with; Kani: every hand-over (actions and the Exit marker) happens under the dispatch lock, so no accepted action can end up behind Exit',
-   level='proof of the safety half: the blocking policy performs exactly one blocking send and never removes, refuses or counts anything; the queue never exceeds the configured capacity (wf invariant); the channel is created with exactly the configured non-zero capacity',
+   level='proof of the safety half: the blocking policy appends the item with at most one call that may wait and never removes, refuses or counts anything; the queue never exceeds the configured capacity (wf invariant); the channel is created with exactly the configured non-zero capacity',
    note='"the caller resumes", "eventually reduced" are liveness and are not decided; A2'),
  'C06': dict(engine='verus', ref='4-C06', technique='Verus: SenderChannel::send against a ghost queue with consumer interference (rely/guarantee), exact transformer when the consumer is stalled',
-   level='unbounded proof (all capacities, all queue contents, every interleaving of consumer steps between the crossbeam calls) that drop policies never issue a blocking call, DropOldest always admits the new item and discards at most one item from the head, DropLatest refuses only the new item, every discarded action is counted exactly once, and Dispatcher::dispatch returns Err exactly when the action was not admitted',
+   level='unbounded proof (all capacities, all queue contents, every interleaving of consumer steps between the crossbeam calls) that drop policies never issue a call that may wait, DropOldest always admits the new item and discards at most one item from the head, DropLatest refuses only the new item, every discarded action is counted exactly once, and Dispatcher::dispatch returns Err exactly when the action was not admitted',
    note='single producer at a time (C02 lock obligations); crossbeam try_send/try_recv/len contracts assumed (A2)'),
  'C07': dict(engine='verus', ref='4-C07', technique='Verus: event-trace postconditions of do_reduce/do_effect/do_notify and the loop invariant trace == concatenation of per-action blocks',
    level='unbounded proof that the trace of the reducer context is the concatenation, in receive order, of per-action blocks with the documented phase order, every callback a direct call of the loop, effects only handed to the dispatcher; registration appends to the very lists the pipeline iterates; exactly one loop per store',
